@@ -1,17 +1,21 @@
 (** Properties/C06.v — "Encrypted documents yield their plaintext with either password, and only then".
     Only statements, each closed by [exact] of a lemma proved in Crypt/*Proofs.v.  MD5, SHA-2, AES-CBC and SASLprep
     are universally quantified functions; what a theorem needs of them is an explicit premise. *)
-From PdfV Require Import Base.Prelude Gen.Generated Crypt.Rc4 Crypt.Rc4Proofs Crypt.Model Crypt.Spec Crypt.Tables Crypt.Proofs Crypt.KdfProofs.
+From PdfV Require Import Base.Prelude Gen.Generated Crypt.Rc4 Crypt.Rc4Proofs Crypt.Rc4Spec Crypt.Model Crypt.Spec Crypt.Tables Crypt.Proofs Crypt.KdfProofs Crypt.Proofs56 Crypt.SafeProofs.
 
-(** the full statement (for reference): for every variant, passwords, P, id, EncryptMetadata, crypt filters named by /StmF and
-    /StrF, object and generation numbers and contents — proved below for /StrF = /StmF; refuted otherwise (C06_strf_refuted, C06-b) *)
+(** the full statement: for every variant, passwords, P, id, EncryptMetadata, crypt filters named by /StmF (streams) and /StrF
+    (strings) independently of each other — Identity, RC4, AES-128, AES-256 —, object and generation numbers and contents:
+    what a conforming writer stored is read back as the original bytes (C06_full; the opening theorems give the decoder) *)
 Definition C06_full_statement : Prop :=
   forall MD5 AESE AESD, (forall x, length (MD5 x) = 16%nat) ->
   (forall k iv x, lenN x mod 16 = 0 -> AESD k iv (AESE k iv x) = x) -> (forall k iv x, lenN (AESE k iv x) = lenN x) ->
-  forall dc fk m (strf_identity : bool) num gen iv s, decoder_for dc fk m -> lenN iv = 16 ->
+  forall dc fk m ms num gen iv data, decoder_for dc fk m ms -> lenN iv = 16 ->
+  (* a stream of object (num, gen), stored under /StmF's method, read through Storage::decode's Decoder::decrypt *)
+  decrypt (fun x => Ok (MD5 x)) (fun k iv x => Ok (AESD k iv x)) dc num gen
+    (protect_bytes MD5 AESE m fk (k_enc_obj dc) (k_meta_obj dc) (negb (k_em dc)) num gen iv data) = Ok data /\
+  (* a string of object (num, gen), stored under /StrF's method, read through the parser's Context::decrypt *)
   ctx_decrypt (fun x => Ok (MD5 x)) (fun k iv x => Ok (AESD k iv x)) (Some dc) num gen
-    (if strf_identity then s        (* /StrF /Identity: a conforming writer stores the string as it is *)
-     else protect_bytes MD5 AESE m fk (k_enc_obj dc) (k_meta_obj dc) (negb (k_em dc)) num gen iv s) = Ok s.
+    (protect_bytes MD5 AESE ms fk (k_enc_obj dc) (k_meta_obj dc) (negb (k_em dc)) num gen iv data) = Ok data.
 
 (** RC4 (implemented in the crate): an involution for every key of 1..256 bytes and every message *)
 Theorem C06_rc4_involution : forall k m, 1 <= lenN k <= 256 ->
@@ -23,6 +27,12 @@ Theorem C06_rc4_bad_key : forall k m, lenN k = 0 \/ 256 < lenN k -> rc4 k m = Pa
 Proof. exact rc4_bad_key_panics. Qed.
 Print Assumptions C06_rc4_bad_key.
 
+(** the crate's Rc4 (state as a 256-entry array, u8 wrapping arithmetic) computes RC4 as published (KSA / PRGA over a
+    permutation given as a function, arithmetic modulo 256): for every key of 1..256 bytes and every message *)
+Theorem C06_rc4_is_rc4 : forall k m, 1 <= lenN k <= 256 -> rc4 k m = Ok (rc4_spec k m).
+Proof. exact rc4_is_spec. Qed.
+Print Assumptions C06_rc4_is_rc4.
+
 (** PKCS#7 unpadding (block-padding, strict) inverts the standard padding for every length incl. 0 and multiples of 16 *)
 Theorem C06_pkcs7 : forall m, pkcs7_unpad (pkcs7_pad m) = Some m.
 Proof. exact pkcs7_unpad_pad. Qed.
@@ -31,25 +41,26 @@ Print Assumptions C06_pkcs7.
 (** the generated constants of crypt.rs are the ones the model was written with; PADDING is the standard's string *)
 Theorem C06_tables : PADDING = spec_pad /\ crypt_salt = salt_tag /\
   crypt_constants = [1; 19; 3; 50; 4; 32; 16;  16; 3; 50; 2; 1; 20;  1; 40; 2; 8; 4; 6; 5; 2; 6;  4; 48; 48; 127; 64; 32; 64; 16;
-                     3; 16; 32; 32; 3; 2; 5; 16;  16; 16; 16] /\
+                     3; 16; 32; 32; 3; 2; 5; 16;  16; 16; 16;  32; 32] /\
   crypt_meta_bytes = [255; 255; 255; 255] /\
   crypt_r56_slices = [(0, 32); (32, 40); (40, 48); (0, 32); (32, 40); (40, 48)] /\
-  crypt_kdf_arms = [(32, 256); (48, 384); (64, 512)].
-Proof. exact (conj padding_is_standard (conj salt_is_standard (conj constants_as_modelled (conj meta_bytes_as_modelled (conj r56_slices_as_modelled kdf_arms_as_modelled))))). Qed.
+  crypt_kdf_arms = [(32, 256); (48, 384); (64, 512)] /\
+  crypt_identity_name = identity_name.
+Proof. exact (conj padding_is_standard (conj salt_is_standard (conj constants_as_modelled (conj meta_bytes_as_modelled (conj r56_slices_as_modelled (conj kdf_arms_as_modelled identity_name_as_modelled)))))). Qed.
 Print Assumptions C06_tables.
 
 (** revisions 2-4: Decoder::from_password is Algorithm 6 followed by Algorithm 7, for every dictionary with a key of 1..16
-    bytes, every document id and every password *)
+    bytes, every document id and every password ([m]: method of /StmF, [ms]: method of /StrF) *)
 Theorem C06_from_password_rc4_refines : forall MD5, (forall x, length (MD5 x) = 16%nat) ->
-  forall R bits n m d id0 pass, 2 <= R <= 4 -> bits / 8 = n -> 1 <= n <= 16 ->
-  from_password_rc4 (fun x => Ok (MD5 x)) R bits m d id0 pass =
+  forall R bits n m ms d id0 pass, 2 <= R <= 4 -> bits / 8 = n -> 1 <= n <= 16 ->
+  from_password_rc4 (fun x => Ok (MD5 x)) R bits m ms d id0 pass =
     match alg6 MD5 R n pass (d_o d) (d_u d) (d_p d) id0 (d_em d) with
-    | Some _ => Ok (decoder_new (alg2_full MD5 R n pass (d_o d) (d_p d) id0 (d_em d) ++ []) n m (d_em d || (d_v d <? 4)%Z))
+    | Some _ => Ok (decoder_with (alg2_full MD5 R n pass (d_o d) (d_p d) id0 (d_em d) ++ []) n m ms (d_em d || (d_v d <? 4)%Z))
     | None =>
         let upw := if R =? 2 then rc4_raw (owner_key MD5 R n pass) (d_o d)
                    else rc4_passes (rev (xkeys (owner_key MD5 R n pass) 0 20)) (d_o d) in
         match alg6 MD5 R n upw (d_o d) (d_u d) (d_p d) id0 (d_em d) with
-        | Some _ => Ok (decoder_new (alg2_full MD5 R n upw (d_o d) (d_p d) id0 (d_em d) ++ []) n m (d_em d || (d_v d <? 4)%Z))
+        | Some _ => Ok (decoder_with (alg2_full MD5 R n upw (d_o d) (d_p d) id0 (d_em d) ++ []) n m ms (d_em d || (d_v d <? 4)%Z))
         | None => Err E_INVALID_PASSWORD
         end
     end.
@@ -58,31 +69,31 @@ Print Assumptions C06_from_password_rc4_refines.
 
 (** opening with the user password yields the file key of Algorithm 2 (U written by Algorithm 4 / 5) *)
 Theorem C06_open_user_rc4 : forall MD5 SHA256 SHA384 SHA512 AESE AESD PREP, (forall x, length (MD5 x) = 16%nat) ->
-  forall fuel d id0 upw R n m tail, std_rc4_dict d R n m ->
+  forall fuel d id0 upw R n m ms tail, std_rc4_dict d R n m ms ->
   let fk := alg2 MD5 R n upw (d_o d) (d_p d) id0 (d_em d) in
   d_u d = u_entry MD5 R fk id0 tail ->
   opens_with (from_password (fun x => Ok (MD5 x)) (fun x => Ok (SHA256 x)) (fun x => Ok (SHA384 x)) (fun x => Ok (SHA512 x))
                 (fun k iv x => Ok (AESE k iv x)) (fun k iv x => Ok (AESD k iv x)) (fun x => Ok (PREP x)) fuel d id0 upw)
-             n fk m (d_em d || (d_v d <? 4)%Z).
+             n fk m ms (d_em d || (d_v d <? 4)%Z).
 Proof. exact open_user_rc4. Qed.
 Print Assumptions C06_open_user_rc4.
 
 (** opening with the owner password (O written by Algorithm 3) yields the same file key *)
 Theorem C06_open_owner_rc4 : forall MD5 SHA256 SHA384 SHA512 AESE AESD PREP, (forall x, length (MD5 x) = 16%nat) ->
-  forall fuel d id0 upw opw R n m tail, std_rc4_dict d R n m ->
+  forall fuel d id0 upw opw R n m ms tail, std_rc4_dict d R n m ms ->
   d_o d = alg3 MD5 R n opw upw ->
   let fk := alg2 MD5 R n upw (d_o d) (d_p d) id0 (d_em d) in
   d_u d = u_entry MD5 R fk id0 tail ->
   alg6 MD5 R n opw (d_o d) (d_u d) (d_p d) id0 (d_em d) = None ->
   opens_with (from_password (fun x => Ok (MD5 x)) (fun x => Ok (SHA256 x)) (fun x => Ok (SHA384 x)) (fun x => Ok (SHA512 x))
                 (fun k iv x => Ok (AESE k iv x)) (fun k iv x => Ok (AESD k iv x)) (fun x => Ok (PREP x)) fuel d id0 opw)
-             n fk m (d_em d || (d_v d <? 4)%Z).
+             n fk m ms (d_em d || (d_v d <? 4)%Z).
 Proof. exact open_owner_rc4. Qed.
 Print Assumptions C06_open_owner_rc4.
 
 (** a password whose validation values differ (Algorithms 6 and 7 both reject it) is rejected with InvalidPassword *)
 Theorem C06_wrong_pw_rc4 : forall MD5 SHA256 SHA384 SHA512 AESE AESD PREP, (forall x, length (MD5 x) = 16%nat) ->
-  forall fuel d id0 pw R n m, std_rc4_dict d R n m ->
+  forall fuel d id0 pw R n m ms, std_rc4_dict d R n m ms ->
   alg6 MD5 R n pw (d_o d) (d_u d) (d_p d) id0 (d_em d) = None ->
   alg7 MD5 R n pw (d_o d) (d_u d) (d_p d) id0 (d_em d) = None ->
   from_password (fun x => Ok (MD5 x)) (fun x => Ok (SHA256 x)) (fun x => Ok (SHA384 x)) (fun x => Ok (SHA512 x))
@@ -93,7 +104,7 @@ Print Assumptions C06_wrong_pw_rc4.
 
 (** ... and only then: a password is accepted iff Algorithm 6 or Algorithm 7 accepts it *)
 Theorem C06_accepted_iff_rc4 : forall MD5 SHA256 SHA384 SHA512 AESE AESD PREP, (forall x, length (MD5 x) = 16%nat) ->
-  forall fuel d id0 pw R n m, std_rc4_dict d R n m ->
+  forall fuel d id0 pw R n m ms, std_rc4_dict d R n m ms ->
   (exists dc, from_password (fun x => Ok (MD5 x)) (fun x => Ok (SHA256 x)) (fun x => Ok (SHA384 x)) (fun x => Ok (SHA512 x))
                 (fun k iv x => Ok (AESE k iv x)) (fun k iv x => Ok (AESD k iv x)) (fun x => Ok (PREP x)) fuel d id0 pw = Ok dc) <->
   (alg6 MD5 R n pw (d_o d) (d_u d) (d_p d) id0 (d_em d) <> None \/ alg7 MD5 R n pw (d_o d) (d_u d) (d_p d) id0 (d_em d) <> None).
@@ -108,30 +119,213 @@ Theorem C06_kdf_refines : forall SHA256 SHA384 SHA512 AESE, (forall x, length (S
 Proof. exact kdf_refines. Qed.
 Print Assumptions C06_kdf_refines.
 
-(** every string and stream: decrypt inverts Algorithm 1 / 1.A for every object number, generation, IV and length
-    (incl. empty and block-aligned), for RC4, AES-128 and AES-256; exempt objects are returned as stored *)
+(** revisions 5 and 6: Decoder::from_password is Algorithm 2.A (ISO 32000-2 §7.6.4.3.3; user test = Algorithm 11 first, then owner
+    test = Algorithm 12), for every dictionary whose U/O have 48 bytes and whose UE/OE are whole AES blocks, every preparable
+    password and every fuel on which the hashes (SHA-256 for R5, Algorithm 2.B for R6) are defined *)
+Theorem C06_from_password_56_refines : forall SHA256 SHA384 SHA512 AESE AESD PREP, (forall x, length (SHA256 x) = 32%nat) ->
+  forall fuel R m ms d pass p ue oe ru ro,
+  PREP pass = Some p -> lenN (d_u d) = 48 -> lenN (d_o d) = 48 ->
+  d_ue d = Some ue -> d_oe d = Some oe -> lenN ue mod 16 = 0 -> lenN oe mod 16 = 0 ->
+  alg2a_user SHA256 SHA384 SHA512 AESE AESD R fuel (pw56 p) (d_u d) ue = Some ru ->
+  (ru = None -> alg2a_owner SHA256 SHA384 SHA512 AESE AESD R fuel (pw56 p) (d_o d) (d_u d) oe = Some ro) ->
+  from_password_56 (fun x => Ok (SHA256 x)) (fun x => Ok (SHA384 x)) (fun x => Ok (SHA512 x))
+                (fun k iv x => Ok (AESE k iv x)) (fun k iv x => Ok (AESD k iv x)) (fun x => Ok (PREP x)) fuel R m ms d pass
+  = match ru with Some k => finish56 m ms d k | None => result56 m ms d ro end.
+Proof. exact from_password_56_refines. Qed.
+Print Assumptions C06_from_password_56_refines.
+
+(** a dictionary whose U and UE were written by Algorithm 8 for the user password opens with it; the decoder holds the file key *)
+Theorem C06_open_user_56 : forall MD5 SHA256 SHA384 SHA512 AESE AESD PREP,
+  (forall x, length (SHA256 x) = 32%nat) -> (forall x, length (SHA384 x) = 48%nat) -> (forall x, length (SHA512 x) = 64%nat) ->
+  (forall k iv x, lenN x mod 16 = 0 -> AESD k iv (AESE k iv x) = x) -> (forall k iv x, lenN (AESE k iv x) = lenN x) ->
+  forall fuel d id0 upw p R m ms hv hk vs ks fk oe,
+  std_56_dict d R m ms -> PREP upw = Some p ->
+  lenN vs = 8 -> lenN ks = 8 -> lenN fk = 32 ->
+  hash56 SHA256 SHA384 SHA512 AESE R fuel (pw56 p) vs [] = Some hv ->
+  hash56 SHA256 SHA384 SHA512 AESE R fuel (pw56 p) ks [] = Some hk ->
+  d_u d = alg8_U hv vs ks -> d_ue d = Some (alg8_UE AESE hk fk) ->
+  lenN (d_o d) = 48 -> d_oe d = Some oe -> lenN oe mod 16 = 0 ->
+  opens_with (from_password (fun x => Ok (MD5 x)) (fun x => Ok (SHA256 x)) (fun x => Ok (SHA384 x)) (fun x => Ok (SHA512 x))
+                (fun k iv x => Ok (AESE k iv x)) (fun k iv x => Ok (AESD k iv x)) (fun x => Ok (PREP x)) fuel d id0 upw)
+             32 fk m ms (em_of d).
+Proof. exact open_user_56. Qed.
+Print Assumptions C06_open_user_56.
+
+(** a dictionary whose O and OE were written by Algorithm 9 for the owner password opens with it (premise: the owner password
+    is not also accepted as user password, which the code tests first) *)
+Theorem C06_open_owner_56 : forall MD5 SHA256 SHA384 SHA512 AESE AESD PREP,
+  (forall x, length (SHA256 x) = 32%nat) -> (forall x, length (SHA384 x) = 48%nat) -> (forall x, length (SHA512 x) = 64%nat) ->
+  (forall k iv x, lenN x mod 16 = 0 -> AESD k iv (AESE k iv x) = x) -> (forall k iv x, lenN (AESE k iv x) = lenN x) ->
+  forall fuel d id0 opw p R m ms hx ho hk vs ks fk ue,
+  std_56_dict d R m ms -> PREP opw = Some p ->
+  lenN vs = 8 -> lenN ks = 8 -> lenN fk = 32 ->
+  lenN (d_u d) = 48 -> d_ue d = Some ue -> lenN ue mod 16 = 0 ->
+  hash56 SHA256 SHA384 SHA512 AESE R fuel (pw56 p) (vsalt (d_u d)) [] = Some hx -> hx <> take 32 (d_u d) ->
+  hash56 SHA256 SHA384 SHA512 AESE R fuel (pw56 p) vs (d_u d) = Some ho ->
+  hash56 SHA256 SHA384 SHA512 AESE R fuel (pw56 p) ks (d_u d) = Some hk ->
+  d_o d = alg9_O ho vs ks -> d_oe d = Some (alg9_OE AESE hk fk) ->
+  opens_with (from_password (fun x => Ok (MD5 x)) (fun x => Ok (SHA256 x)) (fun x => Ok (SHA384 x)) (fun x => Ok (SHA512 x))
+                (fun k iv x => Ok (AESE k iv x)) (fun k iv x => Ok (AESD k iv x)) (fun x => Ok (PREP x)) fuel d id0 opw)
+             32 fk m ms (em_of d).
+Proof. exact open_owner_56. Qed.
+Print Assumptions C06_open_owner_56.
+
+(** a password SASLprep rejects, or one that neither Algorithm 11 nor Algorithm 12 accepts, is rejected with InvalidPassword *)
+Theorem C06_wrong_pw_56 : forall MD5 SHA256 SHA384 SHA512 AESE AESD PREP, (forall x, length (SHA256 x) = 32%nat) ->
+  forall fuel d id0 pw R m ms ue oe,
+  std_56_dict d R m ms -> lenN (d_u d) = 48 -> lenN (d_o d) = 48 ->
+  d_ue d = Some ue -> d_oe d = Some oe -> lenN ue mod 16 = 0 -> lenN oe mod 16 = 0 ->
+  (PREP pw = None \/
+   exists p, PREP pw = Some p /\
+     alg2a_user SHA256 SHA384 SHA512 AESE AESD R fuel (pw56 p) (d_u d) ue = Some None /\
+     alg2a_owner SHA256 SHA384 SHA512 AESE AESD R fuel (pw56 p) (d_o d) (d_u d) oe = Some None) ->
+  from_password (fun x => Ok (MD5 x)) (fun x => Ok (SHA256 x)) (fun x => Ok (SHA384 x)) (fun x => Ok (SHA512 x))
+                (fun k iv x => Ok (AESE k iv x)) (fun k iv x => Ok (AESD k iv x)) (fun x => Ok (PREP x)) fuel d id0 pw
+  = Err E_INVALID_PASSWORD.
+Proof. exact wrong_pw_56. Qed.
+Print Assumptions C06_wrong_pw_56.
+
+(** ... and only then: a decoder is returned iff Algorithm 11 or 12 accepts and the unwrapped key has 32 bytes *)
+Theorem C06_accepted_iff_56 : forall MD5 SHA256 SHA384 SHA512 AESE AESD PREP, (forall x, length (SHA256 x) = 32%nat) ->
+  forall fuel d id0 pw p R m ms ue oe ru ro,
+  std_56_dict d R m ms -> PREP pw = Some p -> lenN (d_u d) = 48 -> lenN (d_o d) = 48 ->
+  d_ue d = Some ue -> d_oe d = Some oe -> lenN ue mod 16 = 0 -> lenN oe mod 16 = 0 ->
+  alg2a_user SHA256 SHA384 SHA512 AESE AESD R fuel (pw56 p) (d_u d) ue = Some ru ->
+  alg2a_owner SHA256 SHA384 SHA512 AESE AESD R fuel (pw56 p) (d_o d) (d_u d) oe = Some ro ->
+  ((exists dc, from_password (fun x => Ok (MD5 x)) (fun x => Ok (SHA256 x)) (fun x => Ok (SHA384 x)) (fun x => Ok (SHA512 x))
+                (fun k iv x => Ok (AESE k iv x)) (fun k iv x => Ok (AESD k iv x)) (fun x => Ok (PREP x)) fuel d id0 pw = Ok dc) <->
+   (exists k, lenN k = 32 /\ (ru = Some k \/ (ru = None /\ ro = Some k)))).
+Proof. exact accepted_iff_56. Qed.
+Print Assumptions C06_accepted_iff_56.
+
+(** Decoder::from_password never panics: for every dictionary, document id, password and fuel the outcome is an error value,
+    fuel exhaustion of the model's revision_6_kdf loop, or a decoder *)
+Theorem C06_no_panic : forall MD5 SHA256 SHA384 SHA512 AESE AESD PREP, (forall x, length (MD5 x) = 16%nat) ->
+  forall fuel d id0 pass s,
+  from_password (fun x => Ok (MD5 x)) (fun x => Ok (SHA256 x)) (fun x => Ok (SHA384 x)) (fun x => Ok (SHA512 x))
+                (fun k iv x => Ok (AESE k iv x)) (fun k iv x => Ok (AESD k iv x)) (fun x => Ok (PREP x)) fuel d id0 pass
+  <> Panic s.
+Proof. exact from_password_no_panic. Qed.
+Print Assumptions C06_no_panic.
+
+(** ... and whatever decoder load_storage_and_trailer_password installs never makes a stream or string decryption panic
+    (Decoder::key slice, Rc4::new assert!), for every object, generation and bytes *)
+Theorem C06_decrypt_no_panic : forall MD5 SHA256 SHA384 SHA512 AESE AESD PREP, (forall x, length (MD5 x) = 16%nat) ->
+  forall fuel d id0 pass enc meta dc num gen data s,
+  load_decoder (fun x => Ok (MD5 x)) (fun x => Ok (SHA256 x)) (fun x => Ok (SHA384 x)) (fun x => Ok (SHA512 x))
+                (fun k iv x => Ok (AESE k iv x)) (fun k iv x => Ok (AESD k iv x)) (fun x => Ok (PREP x)) fuel d id0 pass enc meta = Ok dc ->
+  decrypt (fun x => Ok (MD5 x)) (fun k iv x => Ok (AESD k iv x)) dc num gen data <> Panic s /\
+  ctx_decrypt (fun x => Ok (MD5 x)) (fun k iv x => Ok (AESD k iv x)) (Some dc) num gen data <> Panic s.
+Proof. exact loaded_decoder_no_panic. Qed.
+Print Assumptions C06_decrypt_no_panic.
+
+(** every stream: Decoder::decrypt (the method of /StmF) inverts Algorithm 1 / 1.A for every object number, generation, IV and
+    length (incl. empty and block-aligned), for Identity, RC4, AES-128 and AES-256; exempt objects are returned as stored *)
 Theorem C06_plaintext : forall MD5 AESE AESD, (forall x, length (MD5 x) = 16%nat) ->
   (forall k iv x, lenN x mod 16 = 0 -> AESD k iv (AESE k iv x) = x) -> (forall k iv x, lenN (AESE k iv x) = lenN x) ->
-  forall dc fk m num gen iv data, decoder_for dc fk m -> lenN iv = 16 ->
+  forall dc fk m ms num gen iv data, decoder_for dc fk m ms -> lenN iv = 16 ->
   decrypt (fun x => Ok (MD5 x)) (fun k iv x => Ok (AESD k iv x)) dc num gen
     (protect_bytes MD5 AESE m fk (k_enc_obj dc) (k_meta_obj dc) (negb (k_em dc)) num gen iv data) = Ok data.
 Proof. exact plaintext. Qed.
 Print Assumptions C06_plaintext.
 
-(** the strings of the /Encrypt object and (EncryptMetadata false, V >= 4) the /Metadata object are returned unmodified *)
+(** every string: the parser's Context::decrypt (Decoder::decrypt_string, the method of /StrF — whatever /StmF's is) *)
+Theorem C06_plaintext_string : forall MD5 AESE AESD, (forall x, length (MD5 x) = 16%nat) ->
+  (forall k iv x, lenN x mod 16 = 0 -> AESD k iv (AESE k iv x) = x) -> (forall k iv x, lenN (AESE k iv x) = lenN x) ->
+  forall dc fk m ms num gen iv s, decoder_for dc fk m ms -> lenN iv = 16 ->
+  ctx_decrypt (fun x => Ok (MD5 x)) (fun k iv x => Ok (AESD k iv x)) (Some dc) num gen
+    (protect_bytes MD5 AESE ms fk (k_enc_obj dc) (k_meta_obj dc) (negb (k_em dc)) num gen iv s) = Ok s.
+Proof. exact plaintext_string. Qed.
+Print Assumptions C06_plaintext_string.
+
+(** Storage::decode hands the plaintext of a stream to its filters *)
+Theorem C06_plaintext_decode : forall MD5 AESE AESD, (forall x, length (MD5 x) = 16%nat) ->
+  (forall k iv x, lenN x mod 16 = 0 -> AESD k iv (AESE k iv x) = x) -> (forall k iv x, lenN (AESE k iv x) = lenN x) ->
+  forall filters dc fk m ms num gen iv data, decoder_for dc fk m ms -> lenN iv = 16 ->
+  storage_decode (fun x => Ok (MD5 x)) (fun k iv x => Ok (AESD k iv x)) filters (Some dc) num gen
+    (protect_bytes MD5 AESE m fk (k_enc_obj dc) (k_meta_obj dc) (negb (k_em dc)) num gen iv data) = filters data.
+Proof. exact plaintext_decode. Qed.
+Print Assumptions C06_plaintext_decode.
+
+(** revisions 2-4, end to end: a dictionary written by Algorithms 3-5 opens with the user password, and through the decoder
+    as installed every stream (/StmF's method) and every string (/StrF's method) a conforming writer stored is its plaintext *)
+Theorem C06_open_user_rc4_reads : forall MD5 SHA256 SHA384 SHA512 AESE AESD PREP, (forall x, length (MD5 x) = 16%nat) ->
+  (forall k iv x, lenN x mod 16 = 0 -> AESD k iv (AESE k iv x) = x) -> (forall k iv x, lenN (AESE k iv x) = lenN x) ->
+  forall fuel d id0 upw R n m ms tail, std_rc4_dict d R n m ms -> meth_fits n m -> meth_fits n ms ->
+  let fk := alg2 MD5 R n upw (d_o d) (d_p d) id0 (d_em d) in
+  d_u d = u_entry MD5 R fk id0 tail ->
+  exists dc, from_password (fun x => Ok (MD5 x)) (fun x => Ok (SHA256 x)) (fun x => Ok (SHA384 x)) (fun x => Ok (SHA512 x))
+                (fun k iv x => Ok (AESE k iv x)) (fun k iv x => Ok (AESD k iv x)) (fun x => Ok (PREP x)) fuel d id0 upw = Ok dc /\
+    forall enc meta num gen iv data, lenN iv = 16 ->
+      let dc' := install dc enc meta in
+      decrypt (fun x => Ok (MD5 x)) (fun k iv x => Ok (AESD k iv x)) dc' num gen (protect_bytes MD5 AESE m fk enc meta (negb (k_em dc)) num gen iv data) = Ok data /\
+      ctx_decrypt (fun x => Ok (MD5 x)) (fun k iv x => Ok (AESD k iv x)) (Some dc') num gen (protect_bytes MD5 AESE ms fk enc meta (negb (k_em dc)) num gen iv data) = Ok data.
+Proof. exact open_user_rc4_reads. Qed.
+Print Assumptions C06_open_user_rc4_reads.
+
+(** revisions 5/6: the decoder an Algorithm-8 dictionary opens with is exactly Decoder::with_methods(file key, 32, StmF, StrF) *)
+Theorem C06_open_user_56_key : forall MD5 SHA256 SHA384 SHA512 AESE AESD PREP,
+  (forall x, length (SHA256 x) = 32%nat) -> (forall x, length (SHA384 x) = 48%nat) -> (forall x, length (SHA512 x) = 64%nat) ->
+  (forall k iv x, lenN x mod 16 = 0 -> AESD k iv (AESE k iv x) = x) -> (forall k iv x, lenN (AESE k iv x) = lenN x) ->
+  forall fuel d id0 upw p R m ms hv hk vs ks fk oe,
+  std_56_dict d R m ms -> PREP upw = Some p ->
+  lenN vs = 8 -> lenN ks = 8 -> lenN fk = 32 ->
+  hash56 SHA256 SHA384 SHA512 AESE R fuel (pw56 p) vs [] = Some hv ->
+  hash56 SHA256 SHA384 SHA512 AESE R fuel (pw56 p) ks [] = Some hk ->
+  d_u d = alg8_U hv vs ks -> d_ue d = Some (alg8_UE AESE hk fk) ->
+  lenN (d_o d) = 48 -> d_oe d = Some oe -> lenN oe mod 16 = 0 ->
+  from_password (fun x => Ok (MD5 x)) (fun x => Ok (SHA256 x)) (fun x => Ok (SHA384 x)) (fun x => Ok (SHA512 x))
+                (fun k iv x => Ok (AESE k iv x)) (fun k iv x => Ok (AESD k iv x)) (fun x => Ok (PREP x)) fuel d id0 upw
+  = Ok (decoder_with fk 32 m ms (em_of d)).
+Proof. exact open_user_56_eq. Qed.
+Print Assumptions C06_open_user_56_key.
+
+Theorem C06_open_owner_56_key : forall MD5 SHA256 SHA384 SHA512 AESE AESD PREP,
+  (forall x, length (SHA256 x) = 32%nat) -> (forall x, length (SHA384 x) = 48%nat) -> (forall x, length (SHA512 x) = 64%nat) ->
+  (forall k iv x, lenN x mod 16 = 0 -> AESD k iv (AESE k iv x) = x) -> (forall k iv x, lenN (AESE k iv x) = lenN x) ->
+  forall fuel d id0 opw p R m ms hx ho hk vs ks fk ue,
+  std_56_dict d R m ms -> PREP opw = Some p ->
+  lenN vs = 8 -> lenN ks = 8 -> lenN fk = 32 ->
+  lenN (d_u d) = 48 -> d_ue d = Some ue -> lenN ue mod 16 = 0 ->
+  hash56 SHA256 SHA384 SHA512 AESE R fuel (pw56 p) (vsalt (d_u d)) [] = Some hx -> hx <> take 32 (d_u d) ->
+  hash56 SHA256 SHA384 SHA512 AESE R fuel (pw56 p) vs (d_u d) = Some ho ->
+  hash56 SHA256 SHA384 SHA512 AESE R fuel (pw56 p) ks (d_u d) = Some hk ->
+  d_o d = alg9_O ho vs ks -> d_oe d = Some (alg9_OE AESE hk fk) ->
+  from_password (fun x => Ok (MD5 x)) (fun x => Ok (SHA256 x)) (fun x => Ok (SHA384 x)) (fun x => Ok (SHA512 x))
+                (fun k iv x => Ok (AESE k iv x)) (fun k iv x => Ok (AESD k iv x)) (fun x => Ok (PREP x)) fuel d id0 opw
+  = Ok (decoder_with fk 32 m ms (em_of d)).
+Proof. exact open_owner_56_eq. Qed.
+Print Assumptions C06_open_owner_56_key.
+
+(** ... and through that decoder, as installed, every stream and string stored under the 32-byte file key is its plaintext
+    (methods AES-256 or Identity, independently) *)
+Theorem C06_opened_56_reads : forall MD5 AESE AESD, (forall k iv x, lenN x mod 16 = 0 -> AESD k iv (AESE k iv x) = x) -> (forall k iv x, lenN (AESE k iv x) = lenN x) ->
+  (forall x, length (MD5 x) = 16%nat) ->
+  forall r fk m ms em, r = Ok (decoder_with fk 32 m ms em) -> lenN fk = 32 -> meth_fits 32 m -> meth_fits 32 ms ->
+  exists dc, r = Ok dc /\
+    forall enc meta num gen iv data, lenN iv = 16 ->
+      let dc' := install dc enc meta in
+      decrypt (fun x => Ok (MD5 x)) (fun k iv x => Ok (AESD k iv x)) dc' num gen (protect_bytes MD5 AESE m fk enc meta (negb (k_em dc)) num gen iv data) = Ok data /\
+      ctx_decrypt (fun x => Ok (MD5 x)) (fun k iv x => Ok (AESD k iv x)) (Some dc') num gen (protect_bytes MD5 AESE ms fk enc meta (negb (k_em dc)) num gen iv data) = Ok data.
+Proof. exact opened_56_reads. Qed.
+Print Assumptions C06_opened_56_reads.
+
+(** the strings and streams of the /Encrypt object and (EncryptMetadata false, V >= 4) the /Metadata object are returned unmodified *)
 Theorem C06_exempt : forall MD5 AESD dc enc meta data,
   (forall num gen, enc = Some (num, gen) ->
-     decrypt (fun x => Ok (MD5 x)) (fun k iv x => Ok (AESD k iv x)) (install dc enc meta) num gen data = Ok data) /\
+     decrypt (fun x => Ok (MD5 x)) (fun k iv x => Ok (AESD k iv x)) (install dc enc meta) num gen data = Ok data /\
+     decrypt_string (fun x => Ok (MD5 x)) (fun k iv x => Ok (AESD k iv x)) (install dc enc meta) num gen data = Ok data) /\
   (forall num gen, meta = Some (num, gen) -> k_em dc = false ->
-     decrypt (fun x => Ok (MD5 x)) (fun k iv x => Ok (AESD k iv x)) (install dc enc meta) num gen data = Ok data).
+     decrypt (fun x => Ok (MD5 x)) (fun k iv x => Ok (AESD k iv x)) (install dc enc meta) num gen data = Ok data /\
+     decrypt_string (fun x => Ok (MD5 x)) (fun k iv x => Ok (AESD k iv x)) (install dc enc meta) num gen data = Ok data).
 Proof. exact exempt. Qed.
 Print Assumptions C06_exempt.
 
-(** C06-b: with /StrF /Identity the stored string is the plaintext and the reader (which applies /StmF's method to
-    strings, as crypt.rs does) does not return it: the full statement is false of the faithful model *)
-Theorem C06_strf_refuted : ~ C06_full_statement.
-Proof. exact strf_refuted. Qed.
-Print Assumptions C06_strf_refuted.
+(** the full statement holds: crypt filters chosen independently for streams and strings, Identity included (C06-b repaired) *)
+Theorem C06_full : C06_full_statement.
+Proof. exact (fun MD5 AESE AESD Hm Hi Hl dc fk m ms num gen iv data Hd Hiv =>
+         conj (plaintext MD5 AESE AESD Hm Hi Hl dc fk m ms num gen iv data Hd Hiv) (plaintext_string MD5 AESE AESD Hm Hi Hl dc fk m ms num gen iv data Hd Hiv)). Qed.
+Print Assumptions C06_full.
 
 (** non-vacuity *)
 Example C06_oracle_premises_consistent :
@@ -141,13 +335,31 @@ Example C06_oracle_premises_consistent :
 Proof. repeat split. Qed.
 
 Example C06_std_dict_exists :
-  std_rc4_dict {| d_o := []; d_u := []; d_r := 3; d_p := (-4)%Z; d_v := 2; d_bits := 128; d_cf := []; d_stmf := None;
-                  d_em := true; d_oe := None; d_ue := None |} 3 16 MV2 /\
+  std_rc4_dict {| d_o := []; d_u := []; d_r := 3; d_p := (-4)%Z; d_v := 2; d_bits := 128; d_cf := []; d_stmf := None; d_strf := None;
+                  d_em := true; d_oe := None; d_ue := None |} 3 16 MV2 MV2 /\
+  (* /StmF names an AES-128 filter, /StrF is Identity *)
   std_rc4_dict {| d_o := []; d_u := []; d_r := 4; d_p := (-4)%Z; d_v := 4; d_bits := 40; d_cf := [([83], {| cf_method := MAESV2; cf_length := Some 16 |})];
-                  d_stmf := Some [83]; d_em := false; d_oe := None; d_ue := None |} 4 16 MAESV2.
-Proof. split; (split; [vm_compute; reflexivity|split; [reflexivity|split; split; discriminate]]). Qed.
+                  d_stmf := Some [83]; d_strf := Some identity_name; d_em := false; d_oe := None; d_ue := None |} 4 16 MAESV2 MNone /\
+  (* /StmF is absent (Identity by default), /StrF names an RC4 filter *)
+  std_rc4_dict {| d_o := []; d_u := []; d_r := 4; d_p := (-4)%Z; d_v := 4; d_bits := 40; d_cf := [([83], {| cf_method := MV2; cf_length := Some 16 |})];
+                  d_stmf := None; d_strf := Some [83]; d_em := false; d_oe := None; d_ue := None |} 4 16 MNone MV2.
+Proof. repeat split; try (vm_compute; reflexivity); discriminate. Qed.
 
 Example C06_decoder_for_exists :
-  decoder_for (decoder_new (repeatN 1 32) 32 MAESV3 true) (repeatN 1 32) MAESV3 /\
-  decoder_for (decoder_new (repeatN 1 16) 5 MV2 true) (repeatN 1 5) MV2.
-Proof. split; (split; [reflexivity|vm_compute; intuition discriminate]). Qed.
+  decoder_for (decoder_new (repeatN 1 32) 32 MAESV3 true) (repeatN 1 32) MAESV3 MAESV3 /\
+  decoder_for (decoder_with (repeatN 1 16) 5 MV2 MNone true) (repeatN 1 5) MV2 MNone /\
+  decoder_for (decoder_with (repeatN 1 16) 16 MAESV2 MV2 true) (repeatN 1 16) MAESV2 MV2.
+Proof. repeat split; try reflexivity; vm_compute; intuition discriminate. Qed.
+
+(* revisions 5/6: a dictionary of the shape the theorems speak about exists, and Algorithm 2.B is defined on some fuel
+   (toy oracles: constant digests of the right lengths, AES-CBC = identity) *)
+Example C06_std_56_dict_exists :
+  std_56_dict {| d_o := []; d_u := []; d_r := 6; d_p := (-4)%Z; d_v := 5; d_bits := 256;
+                 d_cf := [([83], {| cf_method := MAESV3; cf_length := Some 32 |})]; d_stmf := Some [83]; d_strf := Some [83];
+                 d_em := true; d_oe := None; d_ue := None |} 6 MAESV3 MAESV3.
+Proof. split; [exists 256; vm_compute; reflexivity|split; [reflexivity|right; reflexivity]]. Qed.
+
+Example C06_hash56_defined :
+  hash56 (fun _ => repeatN 0 32) (fun _ => repeatN 0 48) (fun _ => repeatN 0 64) (fun _ _ x => x) 6 64 [112] (repeatN 1 8) [] = Some (repeatN 0 32) /\
+  hash56 (fun _ => repeatN 0 32) (fun _ => repeatN 0 48) (fun _ => repeatN 0 64) (fun _ _ x => x) 5 0 [112] (repeatN 1 8) [] = Some (repeatN 0 32).
+Proof. split; vm_compute; reflexivity. Qed.
